@@ -255,10 +255,28 @@ def compressGroupsFixed (lim : Option Nat) (tags : List Str) : List (List Elem) 
   ((sortn tags).filter noStem).map (fun t => [⟨t, [⟨[], none⟩], []⟩]) ++
     compressGroups lim (tags.filter fun t => !noStem t)
 
+/-- repair of F19-MANYRANGES: `splice (@r, 0, k)` until nothing is left — consecutive pieces of at
+most `k` range elements (`acc` = the piece being filled, reversed) -/
+def piecesOf (k : Nat) : List Run → List Run → List (List Run)
+  | [], acc => if acc.isEmpty then [] else [acc.reverse]
+  | r :: rs, acc =>
+    if acc.length + 1 = k then (r :: acc).reverse :: piecesOf k rs [] else piecesOf k rs (r :: acc)
+
+/-- the brackets one prefix is printed with: all its range elements in one (`mr = none`, the
+unchanged script), or at most `k` per bracket -/
+def splitElem (mr : Option Nat) (e : Elem) : List Elem :=
+  match mr with
+  | none => [e]
+  | some k => (piecesOf k e.runs []).map fun c => { e with runs := c }
+
+def rechunk (mr : Option Nat) (gs : List (List Elem)) : List (List Elem) :=
+  gs.map fun g => g.flatMap (splitElem mr)
+
 /-- the script's `compress` in the form under test: `stemFix` = F19-EMPTYSTEM repaired,
-`lim` = F19-LONGRUN repaired (both probed on the real script by the check) -/
-def compressV (lim : Option Nat) (stemFix : Bool) (tags : List Str) : List (List Elem) :=
-  if stemFix then compressGroupsFixed lim tags else compressGroups lim tags
+`lim` = F19-LONGRUN repaired, `mr` = F19-MANYRANGES repaired (all probed on the real script by the
+check) -/
+def compressV (lim : Option Nat) (mr : Option Nat) (stemFix : Bool) (tags : List Str) : List (List Elem) :=
+  rechunk mr (if stemFix then compressGroupsFixed lim tags else compressGroups lim tags)
 
 def Run.render (r : Run) : Str :=
   match r.stop with
